@@ -56,10 +56,7 @@ def committed : List Frame → List Frame
 /-- content of the last frame for page `p` -/
 def lastVer : List Frame → Nat → Option Nat
   | [], _ => none
-  | f :: fs, p =>
-    match lastVer fs p with
-    | some v => some v
-    | none => if f.pgno = p then some f.ver else none
+  | f :: fs, p => (lastVer fs p).or (if f.pgno = p then some f.ver else none)
 
 /-- database size recorded by the last frame -/
 def finalSize : List Frame → Nat
@@ -70,9 +67,9 @@ def finalSize : List Frame → Nat
 /-- A complete checkpoint of the committed part of a WAL into a database: every page takes
 its latest frame, the file takes the size recorded by the last commit. (SQLite's law.) -/
 def ckpt (d : Db) (fs : List Frame) : Db :=
-  match committed fs with
-  | [] => d
-  | c =>
+  let c := committed fs
+  if c.isEmpty then d
+  else
     { size := finalSize c
       page := fun p => if p = 0 ∨ finalSize c < p then 0 else (lastVer c p).getD (d.page p) }
 
@@ -139,11 +136,15 @@ inductive Op where
   | needFull         -- anything that makes the store ask for a full snapshot next
 deriving Repr
 
-/-- a write transaction as seen in the WAL: non-empty, ends with a commit frame, no page 0 -/
-def validTx (fs : List Frame) : Bool :=
-  (match fs.getLast? with
-   | some f => decide (f.commit ≠ 0)
-   | none => false) && fs.all (fun f => decide (f.pgno ≠ 0))
+/-- SQLite writes every page a transaction adds to the database: all pages between the
+old size and the new size have a frame -/
+def growOK (sz : Nat) (fs : List Frame) : Bool :=
+  (List.range (finalSize fs + 1)).all (fun p => decide (p ≤ sz) || (lastVer fs p).isSome)
+
+/-- a write transaction as seen in the WAL of a database of `sz` pages: non-empty, ends
+with a commit frame, no page 0, grown pages written -/
+def validTx (sz : Nat) (fs : List Frame) : Bool :=
+  decide (finalSize fs ≠ 0) && fs.all (fun f => decide (f.pgno ≠ 0)) && growOK sz fs
 
 inductive WriteKind where | fresh | reset | append
 deriving Repr, DecidableEq
@@ -172,14 +173,17 @@ structure CkptMeta where
   moved : Nat
 deriving Repr, DecidableEq
 
+/-- how far a checkpoint can backfill: up to the smallest pinned mark, and not at all
+while a lock-0 reader is present -/
+def ckptB (s : State) : Nat :=
+  if s.backfill < s.marks.foldl min s.mx ∧ s.lock0 = false then s.marks.foldl min s.mx else s.backfill
+
 /-- `PRAGMA wal_checkpoint(TRUNCATE)` on a non-empty WAL file -/
 def sqliteCheckpoint (nextSalt : Nat → Nat) (s : State) : State × CkptMeta :=
-  let safe := s.marks.foldl min s.mx
-  let b := if s.backfill < safe ∧ !s.lock0 then safe else s.backfill
-  if b < s.mx then
-    ({ s with file := backfillPages s.file (s.frames.take b), backfill := b }, ⟨1, s.mx, b⟩)
+  if ckptB s < s.mx then
+    ({ s with file := backfillPages s.file (s.frames.take (ckptB s)), backfill := ckptB s }, ⟨1, s.mx, ckptB s⟩)
   else if s.marks ≠ [] then
-    ({ s with file := ckpt s.file s.frames, backfill := b }, ⟨1, s.mx, b⟩)
+    ({ s with file := ckpt s.file s.frames, backfill := s.mx }, ⟨1, s.mx, s.mx⟩)
   else
     ({ s with file := ckpt s.file s.frames, frames := [], backfill := 0, walEmpty := true,
               salt := nextSalt s.salt, gen := s.gen + 1 }, ⟨0, 0, 0⟩)
@@ -194,29 +198,38 @@ structure CaptureOut where
   seg     : Option (List Frame)   -- the segment left in the staging directory, if any
 deriving Repr
 
+/-- the three-outcome bookkeeping after the checkpoint pragma returned `r`; `pre` is the
+salt read before the checkpoint, `seg` the compacted WAL already written to the writer -/
+def captureFinish (pre : Nat) (reset : Bool) (seg : List Frame) (r : State × CkptMeta) : State × CaptureOut :=
+  if r.2.rc = 0 then
+    ({ r.1 with watch := Watch.disarm, segs := r.1.segs ++ [seg] }, ⟨r.2, reset, .none, some seg⟩)
+  else if r.2.moved < r.2.pages then
+    (r.1, ⟨r.2, reset, .busy, none⟩)            -- walWriter.Cancel(): nothing is left behind
+  else if r.2.moved = r.2.pages then
+    ({ r.1 with watch := Watch.arm pre r.2.moved, armGen := r.1.gen, segs := r.1.segs ++ [seg] },
+      ⟨r.2, reset, .none, some seg⟩)
+  else
+    (r.1, ⟨r.2, reset, .invariant, none⟩)
+
 /-- incremental branch of `fsmSnapshot` over `CheckpointManager.Checkpoint(w, …)` -/
 def doCapture (nextSalt : Nat → Nat) (s : State) : State × CaptureOut :=
   if s.walEmpty then
     -- walSzPre == 0 (the store returns ErrNoWALToSnapshot before even calling)
     ({ s with watch := Watch.disarm }, ⟨⟨0, 0, 0⟩, false, .none, none⟩)
   else
-    let pre := s.salt
-    let (w1, start, reset) := s.watch.check pre
-    let tail := s.frames.drop start
+    let c := s.watch.check s.salt
+    let tail := s.frames.drop c.2.1
     if committed tail ≠ tail then
-      ({ s with watch := w1 }, ⟨⟨0, 0, 0⟩, reset, .openTx, none⟩)
+      ({ s with watch := c.1 }, ⟨⟨0, 0, 0⟩, c.2.2, .openTx, none⟩)
     else
-      let seg := compact tail
-      let (s2, m) := sqliteCheckpoint nextSalt { s with watch := w1 }
-      if m.rc = 0 then
-        ({ s2 with watch := Watch.disarm, segs := s2.segs ++ [seg] }, ⟨m, reset, .none, some seg⟩)
-      else if m.moved < m.pages then
-        (s2, ⟨m, reset, .busy, none⟩)            -- walWriter.Cancel(): nothing is left behind
-      else if m.moved = m.pages then
-        ({ s2 with watch := Watch.arm pre m.moved, armGen := s2.gen, segs := s2.segs ++ [seg] },
-          ⟨m, reset, .none, some seg⟩)
-      else
-        (s2, ⟨m, reset, .invariant, none⟩)
+      captureFinish s.salt c.2.2 (compact tail) (sqliteCheckpoint nextSalt { s with watch := c.1 })
+
+/-- `Checkpoint(nil, …)` bookkeeping after the pragma returned `r` -/
+def fullFinish (r : State × CkptMeta) : State × CkptMeta × CkErr :=
+  if r.2.rc ≠ 0 then
+    ({ r.1 with dueFull := true }, r.2, .notComplete)
+  else
+    ({ r.1 with watch := Watch.disarm, base := r.1.file, segs := [], dueFull := false }, r.2, .none)
 
 /-- full branch of `fsmSnapshot` over `CheckpointManager.Checkpoint(nil, …)`; a successful
 full snapshot becomes the new base of the chain -/
@@ -224,15 +237,11 @@ def doFull (nextSalt : Nat → Nat) (s : State) : State × CkptMeta × CkErr :=
   if s.walEmpty then
     ({ s with watch := Watch.disarm, base := s.file, segs := [], dueFull := false }, ⟨0, 0, 0⟩, .none)
   else
-    let (s2, m) := sqliteCheckpoint nextSalt s
-    if m.rc ≠ 0 then
-      ({ s2 with dueFull := true }, m, .notComplete)
-    else
-      ({ s2 with watch := Watch.disarm, base := s2.file, segs := [], dueFull := false }, m, .none)
+    fullFinish (sqliteCheckpoint nextSalt s)
 
 /-- one step of the system; the `Bool` says whether the operation was enabled -/
 def next (nextSalt : Nat → Nat) (s : State) : Op → State
-  | .write fs => if validTx fs then doWrite nextSalt s fs else s
+  | .write fs => if validTx s.logical.size fs then doWrite nextSalt s fs else s
   | .rstart id => if s.readers.any (·.id = id) then s else doRStart s id
   | .rstop id => doRStop s id
   | .capture => if s.dueFull then s else (doCapture nextSalt s).1
@@ -250,6 +259,7 @@ def fresh (d : Db) : State := { file := d, base := d }
 `rstart <id>` / `rstop <id>`             → `ok`
 `capture`  → `rc=<n> pages=<n> moved=<n> reset=<b> err=<e> armed=<b> resume=<n> seg=<frames|-|none>`
 `full`     → `rc=<n> pages=<n> moved=<n> err=<e> armed=<b>`
+`captureb` / `fullb` → `err=<e> [kept=<b>] walempty=<b>`  (store-level view)
 `needfull` → `ok`
 `dbfile`   → `<v1,v2,…|->`   the database file
 `logical`  → `<v1,…>`        file + WAL;  `rebuilt` → base + captured segments -/
@@ -292,7 +302,7 @@ def step (d : DState) (line : String) : DState × String :=
   | ["write", fs] =>
     match parseFrames fs with
     | some fs =>
-      if validTx fs then
+      if validTx d.s.logical.size fs then
         let k := writeKind d.s
         ({ s := doWrite drvSalt d.s fs },
           match k with | .fresh => "fresh" | .reset => "reset" | .append => "append")
@@ -316,6 +326,16 @@ def step (d : DState) (line : String) : DState × String :=
   | ["full"] =>
     let (s', m, e) := doFull drvSalt d.s
     ({ s := s' }, s!"rc={m.rc} pages={m.pages} moved={m.moved} err={errStr e} armed={boolStr s'.watch.armed}")
+  -- the same two operations as seen through the store (`Store.Snapshot`): only the error
+  -- class and whether the WAL file ended up empty are observable there
+  | ["captureb"] =>
+    if d.s.dueFull then (d, "full-due")
+    else
+      let (s', o) := doCapture drvSalt d.s
+      ({ s := s' }, s!"err={errStr o.err} kept={boolStr o.seg.isSome} walempty={boolStr s'.walEmpty}")
+  | ["fullb"] =>
+    let (s', _, e) := doFull drvSalt d.s
+    ({ s := s' }, s!"err={errStr e} walempty={boolStr s'.walEmpty}")
   | ["needfull"] => ({ s := { d.s with dueFull := true } }, "ok")
   | ["dbfile"] => (d, showDb d.s.file)
   | ["logical"] => (d, showDb d.s.logical)
